@@ -113,9 +113,13 @@ impl WorkerState {
         match self.running_tasks.find_mut(&task_id) {
             None => {
                 /* This may happen that task was computed or when work steal
-                  was successful
+                  was successful, or the task is still waiting in the local
+                  backlog of prefilled tasks; in that case it must not be started later
                 */
                 log::debug!("Task not found");
+                self.prefilled_tasks
+                    .values_mut()
+                    .for_each(|tasks| tasks.retain(|t| t.id != task_id));
             }
             Some(task) => task.cancel(),
         }
